@@ -96,6 +96,10 @@ def apply_directives(body, directives, unit):
     if "usub" in rules or "-usub" not in [r.strip() for (k_, v_) in directives if k_ == "rules" for r in v_.split(",")]:
         for (key, val) in unit["subs"]:
             body.sub(key, val, count="?")
+        own = {v_.split("~~>" if "~~>" in v_ else "=>", 1)[0].strip() for (k_, v_) in directives if re.fullmatch(r"m2f([*?]|\d+)?", k_)}
+        for (meth, repl) in unit.get("m2fs", []):
+            if meth not in own:
+                body.method_to_fn(meth, repl, count="?")
     for (key, val) in directives:
         if key == "rules" or key == "params":
             continue
@@ -275,6 +279,13 @@ def splice(template_path, repo_root, canary=False, quarantine=()):
         if s.startswith("//@USUB"):
             pat, repl = s[7:].split("=>", 1)
             unit["subs"].append((pat.strip(), repl.strip()))
+            i += 1
+            continue
+        if s.startswith("//@UM2F"):
+            # unit-wide method-call-to-function-call rewriting (R5), optional everywhere: std methods the verifier has no
+            # specification for, so that an edit which starts using one still type-checks against the stand-ins
+            meth, repl = s[7:].split("=>", 1)
+            unit.setdefault("m2fs", []).append((meth.strip(), repl.strip()))
             i += 1
             continue
         if s.startswith("//@TAG"):
